@@ -8,6 +8,7 @@ import (
 	"fmt"
 	"go/types"
 	"hash/crc32"
+	"math"
 	"math/bits"
 	"strings"
 
@@ -278,6 +279,22 @@ func init() {
 		in.atomicVals[args[0].(Ptr)] = args[1]
 		return nil
 	})
+
+	// ---- math: assembly-backed functions, concrete arguments only ----
+	for name, f := range map[string]func(float64) float64{
+		"math.archLog": math.Log, "math.archExp": math.Exp, "math.archFloor": math.Floor, "math.archCeil": math.Ceil,
+		"math.archTrunc": math.Trunc, "math.archSqrt": math.Sqrt, "math.archLog10": math.Log10, "math.archLog2": math.Log2,
+	} {
+		f := f
+		name := name
+		reg(name, func(in *Interp, fn *ssa.Function, args []Value) Value {
+			x := args[0].(*Term)
+			if !x.IsConst() {
+				in.fail("%s of a symbolic float is not modelled", name)
+			}
+			return in.ctx.Const(64, math.Float64bits(f(math.Float64frombits(x.val))))
+		})
+	}
 
 	// ---- runtime & friends ----
 	reg("runtime.KeepAlive runtime.SetFinalizer runtime.GC runtime.Gosched runtime/debug.SetGCPercent runtime/debug.FreeOSMemory", nop)
